@@ -59,6 +59,20 @@ RULE = (
     'or the fine part, the true FWHM just below / above the local threshold and half-way to the '
     'threshold every other spacing of the window (mean, min, max, median, first, last) would give; '
     'FitParameters / FitRequirements fields as float, int or numpy scalar; '
+    'separation cases: 2..6 estimates at UNEVEN gaps (largest 1.6..3 x smallest) x neighbor_separation_factor '
+    'over its whole range (0, small, default / field left out, 1/2, between 1/2 and 1, 1; int, float, numpy '
+    'scalars) x one call per band of the scalar width against the thresholds 2 (1 - f) gap, gap, 2 gap of '
+    'every pair (below all, reaching a limit below the smallest gap, above the smallest gap below every limit, '
+    'up to twice the largest gap, wider), windows judged where they are built and on the results; '
+    'field cases: every other field of FitRequirements / FitParameters at both ends of its range and in '
+    'between (min_p_value 0..1, width factors 0..inf, guess_background_fraction 0.1..0.95 with windows of '
+    '>= 2 / fraction + 2 points; its ends 0 and 1 may be refused) on a spectrum with a resolved, an '
+    'under-resolved, a too broad and a mis-modelled peak and a peak-free estimate; protocol cases: one '
+    'reference call per shard and the same input in every other documented form (variances on windows / '
+    'estimates / width / coordinate, masks that mask nothing / outside / inside the windows, 13 dimension '
+    'names, keyword calls, numpy / Enum / subclass names, objects used twice, call repeated after a refusal, '
+    'results fed back, subclasses and attribute-only stand-ins of the argument classes, display / copy / '
+    'pickle between calls) must give bit-identical results; one spectrum of 2**20 + 7 or 3 x 400001 points; '
     'distinct = distinct (call, window class, estimate class, spec shape, grid, #estimates, '
     'content, background class, iterable forms) signatures; no case is trivial'
 )
@@ -67,7 +81,18 @@ ASSUMPTIONS = [
     'point coordinate, lo <= x < hi (trusted container semantics)',
     'admissible input: 1-d float64 data with positive variances on a strictly ascending point '
     'coordinate, estimates sorted when windows are built automatically, explicit windows with '
-    'lower <= upper, neighbor_separation_factor < 1, guess_background_fraction at its default',
+    'lower <= upper, 0 <= neighbor_separation_factor <= 1 (at 1 the limit is the estimate itself: '
+    'contains-the-estimate and the limit are judged with 8 eps slack of the coordinate magnitude), '
+    '0 < guess_background_fraction < 1 with at least 2 / fraction + 2 points in every fitted window (both '
+    'the tails and the bulk the first guesses are taken from are non-empty); the fractions 0 and 1 and '
+    'variances on estimates / width / coordinate with automatic windows are outside the domain: a '
+    'ValueError resp. VariancesError there is counted, a result is judged',
+    'the same input in another documented form (container, dtype of a name, dimension label, keyword vs '
+    'positional, subclass or attribute-compatible stand-in, masks that mask no point of any window, '
+    'variances on explicit windows / estimates which only label the windows) has the same results bit for bit',
+    'with masked points inside a window the statistics are those of all points of the window (the property '
+    'text: "the data in the window"); the comparison with the background-only least-squares minimum is not '
+    'judged there',
     '"near the edge" is read as in DESIGN 4/C17: closer than two (smallest) grid steps to a '
     'window bound; "local spacing" as any spacing adjacent to the grid point nearest the peak '
     '(values between the smallest and largest adjacent spacing are undecided)',
@@ -109,15 +134,23 @@ BKG_NAME = {'linear': 1, 'quadratic': 2}
 
 
 # ------------------------------------------------------------- utilities ---
+def _plain(s):
+    """The characters of a str of any kind (np.str_, str subclass, (str, Enum) member) as a plain str."""
+    return str.__getitem__(s, slice(None)) if type(s) is not str else s
+
+
 def _kind_of_peak_spec(s):
     if isinstance(s, str):
-        return s
-    return PEAK_CLASS.get(type(s).__name__, type(s).__name__)
+        return _plain(s)
+    for c in type(s).__mro__:  # a subclass of a documented model is that model
+        if c.__name__ in PEAK_CLASS:
+            return PEAK_CLASS[c.__name__]
+    return type(s).__name__
 
 
 def _degree_of_bkg_spec(s):
     if isinstance(s, str):
-        return BKG_NAME.get(s, s)
+        return BKG_NAME.get(_plain(s), _plain(s))
     names = getattr(s, 'param_names', None)
     return len(names) - 1 if names is not None else type(s).__name__
 
@@ -529,8 +562,11 @@ class Monitors:
             rec['fit_windows'] = ev.result if ev.exc is None else None
         if ev.exc is not None:
             return
+        r = ev.result
         judge_auto_windows(self.ctx, ev.args['data'], ev.args['center'], ev.args['width'],
-                           ev.args['fit_parameters'], ev.result, self.tag)
+                           float(ev.args['fit_parameters'].neighbor_separation_factor),
+                           np.stack([r['range', 0].values, r['range', 1].values], axis=1), self.tag,
+                           where='_fit_windows')
 
     # ---- result monitor on fit_peaks ---------------------------------------
     def fit_peaks_return(self, ev):
@@ -554,6 +590,11 @@ class Monitors:
             ctx.violation('fit_peaks_mutated_input', 'fit_peaks changed its data argument', base)
         used = rec['fit_windows'] if auto else windows
         if ev.exc is not None:
+            if type(ev.exc).__name__ in self.tag.get('refusal_ok', ()):
+                # an input outside the admissible domain that the workload hands over on purpose
+                # (stated in ASSUMPTIONS): a refusal of the stated type is counted, not judged
+                ctx.count('refused:' + self.tag.get('refusal_class', 'unnamed'))
+                return
             self._judge_raise(ev.exc, rec, used, est, x, base, auto)
             return
         res = ev.result
@@ -561,6 +602,17 @@ class Monitors:
             ctx.violation('result_count', f'{len(res) if hasattr(res, "__len__") else res!r} results '
                           f'for {m} estimates', base, n_results=len(res), n_estimates=m)
             return
+        if self.tag.get('refusal_ok'):
+            ctx.count('accepted_where_refusal_was_allowed:' + self.tag.get('refusal_class', 'unnamed'))
+        if auto and all(hasattr(r, 'window') for r in res):
+            # (vi) on what the caller gets: the windows the results carry (whatever helper built them)
+            fpar = a.get('fit_parameters')
+            f = 1 / 3 if fpar is None else float(fpar.neighbor_separation_factor)  # documented default
+            try:
+                rw = np.array([[float(r.window.values[0]), float(r.window.values[1])] for r in res])
+                judge_auto_windows(ctx, data, est, windows, f, rw, self.tag, where='results')
+            except Exception:  # noqa: BLE001
+                ctx.oracle_error('C17 auto windows of the results')
         if used is None:
             ctx.count('windows_not_observed')
             return
@@ -684,6 +736,10 @@ class Monitors:
         for i, r in enumerate(res):
             # the one window in either layout scipp allows for sizes {dim: 1, 'range': 2}
             layout = ISOLATION_LAYOUTS[i % len(ISOLATION_LAYOUTS)]
+            if r.window.variances is not None:
+                # (the single window is rebuilt from values; the protocol class compares these runs)
+                ctx.count('isolation_not_judged:window_carries_variances')
+                continue
             w = windows_in_layout(layout, np.array([r.window.values]), edim, r.window.unit)
             ctx.event('isolation.windows_' + layout)
             case = {**base, 'peak_index': i, 'window': r.window.values.tolist(),
@@ -724,6 +780,12 @@ def judge_stats(ctx, x, y, var, coef, pk, kind, rep, label, case):
         fmag = fmag + np.abs(pv)
     chi2 = pm.chi_square(y, var, f)
     dchi2 = pm.chi_square_bound(y, var, f, fmag)
+    if chi2 <= dchi2:
+        # an exact fit (as many points as parameters): chi^2 is within the forward rounding bound of
+        # its own evaluation of zero, and chi^2 / dof, log(chi^2) are not defined to any accuracy
+        # there (float64 may give exactly 0 -> nan / -inf where long double gives 1e-28 -> inf / -300)
+        ctx.count('undecided:chi2_within_rounding_of_zero')
+        return None
     st = pm.statistics(chi2, n, k)
     tol = pm.statistics_tolerance(chi2, dchi2, n, k, st, REL)
     tag = 'result' if label == 'result' else 'perform_fit'
@@ -798,7 +860,12 @@ def judge_success(ctx, xw, yw, vw, lo, hi, coef, pk, pair, rep, req, case, posit
             min_width_evidence(ctx, xw, fw, req.min_peak_width_factor, small, large, 'success')
     # better than the background alone, AIC of an independent linear least-squares fit
     n = len(xw)
-    if deg > 2:
+    if case.get('masked_inside'):
+        # masked points inside the window: the fit leaves them out, the statistics are those of
+        # 'the data in the window'; the least-squares minimum over all points of the window is
+        # then not what the code's background-only fit can be held against
+        ctx.count('success_vs_background_aic_not_judged:masked_points_in_window')
+    elif deg > 2:
         # measured on the unchanged tree: the code's own background-only fit of a cubic in the
         # raw (uncentred) coordinate stops up to 0.1 AIC units above the least-squares minimum
         # (bkg_aic.code_minus_lsq), so the threshold "AIC of the background alone" cannot be
@@ -927,23 +994,27 @@ def judge_failure_reason(ctx, name, xw, yw, vw, coef, pk, pair, rep, req, case):
                     f'reach on these points, {aic_b!r}')
 
 
-def judge_auto_windows(ctx, data, center, width, fit_parameters, result, tag):
-    """(vi) automatically built windows."""
+def judge_auto_windows(ctx, data, center, width, f, result, tag, where='_fit_windows'):
+    """(vi) automatically built windows: ``result`` is the (m, 2) array of bounds, ``f`` the
+    separation factor; judged where ``_fit_windows`` returns and on the windows the results of
+    ``fit_peaks`` carry."""
     x = data.coords[data.dim].values
     lo_d, hi_d = float(x.min()), float(x.max())
     p = center.values.astype(np.float64)
-    f = float(fit_parameters.neighbor_separation_factor)
-    w0 = result['range', 0].values
-    w1 = result['range', 1].values
+    sfx = '' if where == '_fit_windows' else '.' + where
+    result = np.asarray(result, dtype=np.float64).reshape(-1, 2)
+    w0 = result[:, 0]
+    w1 = result[:, 1]
     lo_s, hi_s = pm.separation_limits(p, f)
     slack = 8 * pm.EPS * max(float(np.max(np.abs(p))), abs(lo_d), abs(hi_d), 1e-300)
+    fclass = tag.get('separation_class')
     base = {'estimates': p.tolist(), 'width': float(width.value), 'data_range': [lo_d, hi_d],
-            'separation_factor': f, 'windows': np.stack([w0, w1], axis=1).tolist(), **tag}
+            'separation_factor': f, 'windows': result.tolist(), 'observed_at': where, **tag}
     if len(w0) != len(p):
         ctx.violation('auto_window_count', f'{len(w0)} windows for {len(p)} estimates', base)
         return
     for i in range(len(p)):
-        ctx.event('auto_window')
+        ctx.event('auto_window' + sfx)
         a, b = float(w0[i]), float(w1[i])
         inside = lo_d <= p[i] <= hi_d
         case = {**base, 'peak_index': i}
@@ -955,32 +1026,40 @@ def judge_auto_windows(ctx, data, center, width, fit_parameters, result, tag):
             ctx.violation('auto_window_outside_range',
                           f'window {i} = [{a!r}, {b!r}] leaves the data range [{lo_d!r}, {hi_d!r}]',
                           case, estimate_outside=not inside, neighbour_outside=nb_out,
-                          pushed_by_separation=pushed, inverted=bool(a > b))
+                          pushed_by_separation=pushed, inverted=bool(a > b), observed_at=where)
             continue
         if inside:
-            if not a <= p[i] <= b:
+            # (for factor 1 the separation limit IS the estimate, computed as neighbour + 1 x gap:
+            # the two clauses meet within rounding of that sum)
+            if not a - slack <= p[i] <= b + slack:
                 ctx.violation('auto_window_excludes_estimate',
-                              f'window {i} = [{a!r}, {b!r}] does not contain its estimate {float(p[i])!r}', case)
+                              f'window {i} = [{a!r}, {b!r}] does not contain its estimate {float(p[i])!r}',
+                              case, observed_at=where)
         else:
             ctx.count('auto_window_of_outside_estimate')
-        if i > 0:
-            if lo_s[i] > hi_d:
+        for side, nb, lim, edge in (('left', i - 1, lo_s[i], a), ('right', i + 1, hi_s[i], b)):
+            if not 0 <= nb < len(p):
+                continue
+            if (side == 'left' and lim > hi_d) or (side == 'right' and lim < lo_d):
                 ctx.count('separation_limit_outside_range')
-            elif a < lo_s[i] - slack:
+                continue
+            too_close = edge < lim - slack if side == 'left' else edge > lim + slack
+            gap = abs(float(p[nb] - p[i]))
+            # did the requested width reach the limit (so that keeping the distance took an adjustment)?
+            reached = float(width.value) / 2 > (1 - f) * gap
+            if too_close:
                 ctx.violation('auto_window_too_close_to_neighbour',
-                              f'left edge {a!r} of window {i} is closer than {f!r} x gap to estimate '
-                              f'{float(p[i - 1])!r} (limit {float(lo_s[i])!r})', case, side='left')
+                              f'{side} edge {edge!r} of window {i} is {abs(edge - float(p[nb]))!r} from the '
+                              f'neighbouring estimate {float(p[nb])!r}: closer than {f!r} x gap = '
+                              f'{f * gap!r} (limit {float(lim)!r})', case, side=side, observed_at=where,
+                              width_reaches_limit=bool(reached),
+                              factor_above_half=bool(f > 0.5))
             else:
-                ctx.event('auto_window_separation')
-        if i + 1 < len(p):
-            if hi_s[i] < lo_d:
-                ctx.count('separation_limit_outside_range')
-            elif b > hi_s[i] + slack:
-                ctx.violation('auto_window_too_close_to_neighbour',
-                              f'right edge {b!r} of window {i} is closer than {f!r} x gap to estimate '
-                              f'{float(p[i + 1])!r} (limit {float(hi_s[i])!r})', case, side='right')
-            else:
-                ctx.event('auto_window_separation')
+                ctx.event('auto_window_separation' + sfx)
+                if reached:
+                    ctx.event('auto_window_separation.width_reaches_limit' + sfx)
+                if fclass:
+                    ctx.event(f'auto_window_separation.factor_{fclass}' + sfx)
 
 
 def _iterable_class(obj):
@@ -1517,15 +1596,703 @@ def build_resolution_case(rng, ri, tier, M, P, sources):
     return data, kw, tag, sig, {'n': n}
 
 
+# ---- cheap spectra for the classes below ---------------------------------------------------
+def _peak_params(kind, loc, fw, rng):
+    pp = {'loc': float(loc), 'scale': fw / (2 * math.sqrt(2 * math.log(2))) if kind == 'gaussian' else fw / 2,
+          'amplitude': 1.0}
+    if kind == 'pseudo_voigt':
+        pp['fraction'] = float(rng.uniform(0, 1))
+    return pp
+
+
+def simple_spectrum(rng, x, peaks, dim, xu, yu, snr=(1.5, 2.5)):
+    """Peaks ``[(kind, loc, fwhm)]`` on a sloped background with constant Gaussian noise."""
+    n = len(x)
+    t = (x - 0.5 * (x[0] + x[-1])) / (0.5 * (x[-1] - x[0]))
+    b0 = 10 ** rng.uniform(1.3, 3)
+    y = b0 * (1 + rng.uniform(-0.3, 0.3) * t)
+    sigma = np.full(n, b0 * 10 ** rng.uniform(-2.5, -1.5))
+    for kind, loc, fw in peaks:
+        pp = _peak_params(kind, loc, fw, rng)
+        pp['amplitude'] = float(sigma[0] * 10 ** rng.uniform(*snr) / pm.peak_height(kind, pp))
+        y = y + pm.peak(kind, x, pp).astype(np.float64)
+    y = y + rng.normal(0.0, 1.0, n) * sigma
+    return sc.DataArray(sc.array(dims=[dim], values=y, variances=sigma ** 2, unit=yu or 'one'),
+                        coords={dim: sc.array(dims=[dim], values=x, unit=xu or 'one')})
+
+
+def _tag(window_class, m, dim, xu, yu, peak_models, degrees, **extra):
+    return {'window_class': window_class, 'estimate_class': 'inside', 'spec_class': None,
+            'grid': 'uniform', 'content': 'peaks', 'background_class': 'sloped', 'units': [xu, yu],
+            'dim': dim, 'dips': 0, 'peak_free': [False] * m, 'peak_models': list(peak_models),
+            'background_degrees': list(degrees), 'peak_spec_form': 'bare',
+            'background_spec_form': 'bare', **extra}
+
+
+def _as_number(v, k):
+    """A number the way a caller may write it: float, int (where integral), numpy scalar."""
+    if float(v) == int(v) if math.isfinite(v) else False:
+        return [int(v), float(v), np.int64(int(v)), np.float64(v)][k % 4]
+    return [float(v), np.float64(v)][k % 2]
+
+
+# ---- separation cases: neighbor_separation_factor over [0, 1] x window width against the gaps ----
+SEP_FACTORS = ['0', 'small', 'default', 'one_half', 'above_one_half', '1']
+SEP_BANDS = {
+    # the requested width against, for every pair of neighbours with gap g: 2 (1 - f) g (half the
+    # width reaches the limit f g from the neighbour), g (reaches the neighbour's half-way point
+    # from either side) and 2 g (reaches the neighbouring estimate)
+    'below_every_limit_and_gap': 'no window reaches a separation limit or a gap',
+    'reaches_limit_below_smallest_gap': 'reaching a separation limit although narrower than the smallest gap',
+    'above_smallest_gap_below_every_limit': 'wider than the smallest gap, reaching no separation limit',
+    'smallest_gap_to_twice_largest': 'between the smallest gap and twice the largest',
+    'above_twice_largest_gap': 'wider than twice the largest gap',
+}
+# the bands that exist for a factor class (for 2 estimates there is one gap; 3+ estimates get uneven gaps)
+SEP_BANDS_OF = {
+    '0': ['below_every_limit_and_gap', 'above_smallest_gap_below_every_limit',
+          'smallest_gap_to_twice_largest', 'above_twice_largest_gap'],
+    'small': ['below_every_limit_and_gap', 'above_smallest_gap_below_every_limit',
+              'smallest_gap_to_twice_largest', 'above_twice_largest_gap'],
+    'default': ['below_every_limit_and_gap', 'above_smallest_gap_below_every_limit',
+                'smallest_gap_to_twice_largest', 'above_twice_largest_gap'],
+    'one_half': ['below_every_limit_and_gap', 'smallest_gap_to_twice_largest', 'above_twice_largest_gap'],
+    'above_one_half': ['below_every_limit_and_gap', 'reaches_limit_below_smallest_gap',
+                       'smallest_gap_to_twice_largest', 'above_twice_largest_gap'],
+    '1': ['reaches_limit_below_smallest_gap', 'smallest_gap_to_twice_largest', 'above_twice_largest_gap'],
+}
+FORCED_SEPARATION_CLASSES = [f'separation factor {fc}, width {SEP_BANDS[b]}'
+                             for fc in SEP_FACTORS for b in SEP_BANDS_OF[fc]]
+
+
+def _separation_factor(fc, rng, k):
+    """(value handed to FitParameters or None = field left at its default, float value)."""
+    if fc == '0':
+        v = [0, 0.0, np.int64(0), np.float64(0.0)][k % 4]
+    elif fc == 'small':
+        v = float(10 ** rng.uniform(-3, -1))
+    elif fc == 'default':
+        v = [None, 1 / 3][k % 2]
+    elif fc == 'one_half':
+        v = [0.5, np.float64(0.5), np.float32(0.5)][k % 3]
+    elif fc == 'above_one_half':
+        v = [0.75, float(rng.uniform(0.55, 0.97)), np.float32(0.75), float(rng.uniform(0.9, 0.999))][k % 4]
+    else:
+        v = [1, 1.0, np.int64(1), np.float64(1.0)][k % 4]
+    return v, (1 / 3 if v is None else float(v))
+
+
+def _width_bands(f, gaps):
+    """{band: (lo, hi, thresholds strictly inside)} of the scalar width for these gaps."""
+    gmin, gmax = min(gaps), max(gaps)
+    reach = sorted(2 * (1 - f) * g for g in gaps)
+    thr = sorted({*reach, *gaps, *(2 * g for g in gaps)})
+    out = {}
+
+    def put(name, lo, hi):
+        if hi > lo * (1 + 1e-3) and hi > 0:
+            out[name] = (lo, hi, [t for t in thr if lo * (1 + 1e-9) < t < hi * (1 - 1e-9)])
+
+    lowest = min(reach[0], gmin)
+    put('below_every_limit_and_gap', 0.1 * lowest, lowest)
+    if reach[0] < gmin:
+        put('reaches_limit_below_smallest_gap', max(reach[0], 0.05 * gmin), gmin)
+    else:
+        put('above_smallest_gap_below_every_limit', gmin, reach[0])
+    put('smallest_gap_to_twice_largest', max(gmin, reach[0]) if reach[0] <= 2 * gmax else gmin, 2 * gmax)
+    put('above_twice_largest_gap', 2 * gmax, 6 * gmax)
+    return out
+
+
+def build_separation_case(rng, si, tier, M, P, sources):
+    """fit_peaks calls with automatic windows on one spectrum with 2..6 estimates at UNEVEN gaps,
+    one call per band of the scalar width (relative to the gaps and to where half the width
+    reaches the separation limit of a pair), for one separation factor out of the whole
+    admissible range 0 <= f <= 1.  Yields (data, kw, tag, sig)."""
+    fc = SEP_FACTORS[si % len(SEP_FACTORS)]
+    rnd = si // len(SEP_FACTORS)
+    m = 2 + rnd % 5
+    fval, f = _separation_factor(fc, rng, rnd)
+    g0 = 10 ** rng.uniform(-1.5, 1.5)
+    # uneven: the largest gap is 1.6..3 x the smallest, the others log-spaced in between, any order
+    R = rng.uniform(1.6, 3.0)
+    ratios = R ** (np.arange(m - 1) / max(m - 2, 1)) if m > 2 else np.array([1.0])
+    gaps = (g0 * rng.permutation(ratios)).tolist()
+    gmin, gmax = min(gaps), max(gaps)
+    h = gmin / rng.uniform(16, 26)
+    start = g0 * rng.uniform(-40, 40)
+    centers = start + np.concatenate([[0.0], np.cumsum(gaps)])
+    lo = centers[0] - rng.uniform(0.5, 1.3) * gmax
+    hi = centers[-1] + rng.uniform(0.5, 1.3) * gmax
+    n = int((hi - lo) / h) + 1
+    i = np.arange(n, dtype=np.float64)
+    grid = ['uniform', 'quadratic', 'uniform'][rnd % 3]
+    x = lo + h * i if grid == 'uniform' else lo + h * (i + 0.25 * i * i / n) / 1.25
+    kind = ['gaussian', 'lorentzian'][rnd % 2]
+    xu, yu = UNITS[rng.integers(0, len(UNITS))]
+    dim = DIMS[rng.integers(0, len(DIMS))]
+    fws = [rng.uniform(3, 6) * h for _ in centers]
+    data = simple_spectrum(rng, x, [(kind, c, fw) for c, fw in zip(centers, fws, strict=True)], dim, xu, yu)
+    est = np.array([c + rng.uniform(-0.2, 0.2) * fw for c, fw in zip(centers, fws, strict=True)])
+    egaps = np.diff(est).tolist()
+    bands = _width_bands(f, egaps)
+    for band in SEP_BANDS_OF[fc]:
+        if band not in bands:
+            continue  # one gap only / gaps too even for this band
+        blo, bhi, inner = bands[band]
+        pts = [blo, *inner, bhi]
+        j = int(rng.integers(0, len(pts) - 1))
+        w = pts[j] + (pts[j + 1] - pts[j]) * rng.uniform(0.15, 0.85)
+        tag = _tag('auto_separation', m, dim, xu, yu, [kind], [1], grid=grid,
+                   separation_class=fc, separation_factor=fval, width_band=band,
+                   gaps=egaps, width_over_smallest_gap=w / min(egaps),
+                   forced_class=f'separation factor {fc}, width {SEP_BANDS[band]}')
+        kw = {'peak_estimates': estimates_variable(est, dim, xu or 'one', rnd % 4 == 2, tag),
+              'windows': sc.scalar(w, unit=xu or 'one'), 'background': 'linear', 'peak': kind}
+        if fval is not None:
+            kw['fit_parameters'] = P.FitParameters(neighbor_separation_factor=fval)
+        yield data, kw, tag, ('fit_peaks', 'auto_separation', fc, band, m, type(fval).__name__, grid)
+
+
+# ---- field cases: every field of FitParameters / FitRequirements over its admissible range ----
+# (class, field, position in the range, value); neighbor_separation_factor has its own cases above
+FIELD_SETTINGS = [
+    ('FitRequirements', 'min_p_value', 'lower end', 0), ('FitRequirements', 'min_p_value', 'small', 1e-6),
+    ('FitRequirements', 'min_p_value', 'default', 0.01), ('FitRequirements', 'min_p_value', 'large', 0.5),
+    ('FitRequirements', 'min_p_value', 'upper end', 1),
+    ('FitRequirements', 'max_peak_width_factor', 'lower end', 0),
+    ('FitRequirements', 'max_peak_width_factor', 'small', 1e-3),
+    ('FitRequirements', 'max_peak_width_factor', 'below default', 0.3),
+    ('FitRequirements', 'max_peak_width_factor', 'default', 1),
+    ('FitRequirements', 'max_peak_width_factor', 'large', 10),
+    ('FitRequirements', 'max_peak_width_factor', 'upper end', math.inf),
+    ('FitRequirements', 'min_peak_width_factor', 'lower end', 0),
+    ('FitRequirements', 'min_peak_width_factor', 'small', 0.5),
+    ('FitRequirements', 'min_peak_width_factor', 'default', 1),
+    ('FitRequirements', 'min_peak_width_factor', 'above default', 3),
+    ('FitRequirements', 'min_peak_width_factor', 'large', 1e3),
+    ('FitRequirements', 'min_peak_width_factor', 'upper end', math.inf),
+    ('FitParameters', 'guess_background_fraction', 'small', 0.1),
+    ('FitParameters', 'guess_background_fraction', 'below default', 0.25),
+    ('FitParameters', 'guess_background_fraction', 'default', 0.5),
+    ('FitParameters', 'guess_background_fraction', 'above default', 0.75),
+    ('FitParameters', 'guess_background_fraction', 'large', 0.95),
+    # the ends of 'a fraction of the window': no point left for the background / for the peak
+    ('FitParameters', 'guess_background_fraction', 'lower end (refusal allowed)', 0),
+    ('FitParameters', 'guess_background_fraction', 'upper end (refusal allowed)', 1),
+]
+FORCED_FIELD_CLASSES = [f'{c}.{fld} at its {pos}' for c, fld, pos, _ in FIELD_SETTINGS]
+
+
+def build_field_case(rng, fi, tier, M, P, sources):
+    """One fit_peaks call with one field of FitRequirements / FitParameters set to a value out of
+    its admissible range (both ends included) on a spectrum that makes every requirement bite:
+    a well-resolved peak, an under-resolved one (FWHM ~ 0.8 grid steps), a broad one (FWHM above
+    the window width), a Lorentzian fitted with the Gaussian model (small p) and an estimate
+    without a peak; windows of 40..60 points (>= 2 / fraction + 2 points for the smallest
+    guess_background_fraction used)."""
+    cls, fld, pos, val = FIELD_SETTINGS[fi % len(FIELD_SETTINGS)]
+    rnd = fi // len(FIELD_SETTINGS)
+    h = 10 ** rng.uniform(-3, 1)
+    n = 420
+    x = h * rng.uniform(-50, 300) + h * np.arange(n, dtype=np.float64)
+    npts = int(rng.integers(40, 61))
+    locs = [x[0] + h * (n * q + rng.uniform(-3, 3)) for q in (0.12, 0.31, 0.5, 0.69, 0.88)]
+    shapes = [('gaussian', locs[0], rng.uniform(4, 7) * h), ('gaussian', locs[1], rng.uniform(0.7, 0.95) * h),
+              ('gaussian', locs[2], npts * h * rng.uniform(1.1, 1.5)), ('lorentzian', locs[3], rng.uniform(5, 8) * h)]
+    xu, yu = UNITS[rng.integers(0, len(UNITS))]
+    dim = DIMS[rng.integers(0, len(DIMS))]
+    data = simple_spectrum(rng, x, shapes, dim, xu, yu, snr=(2.0, 3.0))
+    est = np.array(locs) + rng.uniform(-0.5, 0.5, 5) * h
+    v = _as_number(val, rnd + fi)
+    tag = _tag('moderate', 5, dim, xu, yu, ['gaussian'], [1], content='some_estimates_without_peak',
+               field=f'{cls}.{fld}', field_value=repr(v), field_position=pos,
+               forced_class=f'{cls}.{fld} at its {pos}')
+    tag['peak_free'] = [False, False, False, False, True]
+    kw = {'peak_estimates': estimates_variable(est, dim, xu or 'one', False, tag),
+          'windows': sc.scalar((npts - 0.5) * h, unit=xu or 'one'), 'background': 'linear', 'peak': 'gaussian'}
+    if cls == 'FitRequirements':
+        kw['fit_requirements'] = P.FitRequirements(**{fld: v})
+        tag['requirements'] = repr(kw['fit_requirements'])
+    else:
+        kw['fit_parameters'] = P.FitParameters(**{fld: v})
+        if 'refusal allowed' in pos:
+            tag['refusal_ok'] = ('ValueError',)
+            tag['refusal_class'] = f'{fld} = {val}'
+    return data, kw, tag, ('fit_peaks', 'field', cls, fld, pos, type(v).__name__)
+
+
+# ---- the same input in every other form the documentation allows (protocol classes) ----------
+# dim names an implementation might use internally (the package's literal is 'range', which the
+# documented layout of explicit windows reserves), near misses of it, and odd but legal labels
+PROTOCOL_DIMS = ['row', 'rotation', 'slit', 'vertex', 'cutout', 'event', 'x', 'range_', 'Range',
+                 'dim_0', 'a b', 'λ', 'c5a5b8e2-1f0e-4b7c-9d57-3f2f4b0e8a11']
+HEAVY_SIZES = [2 ** 20 + 7, 3 * 400001]
+
+
+def result_key(res):
+    """What a caller can read off a list of results, bit for bit (model identity by kind)."""
+    out = []
+    for r in res:
+        out.append((r.assessment.name, _model_pair(r.peak, r.background),
+                    np.asarray(r.window.values, dtype=np.float64).tobytes(), str(r.window.unit),
+                    tuple((k, np.float64(v.value).tobytes(), str(v.unit)) for k, v in sorted(r.popt.items())),
+                    tuple(np.float64(getattr(r, s).value).tobytes() for s in ('red_chisq', 'p_value', 'aic'))))
+    return out
+
+
+def _protocol_classes():
+    """(axis, name) of every protocol variant, in the order they are dealt to the shards."""
+    v = [('variances', 'explicit windows carrying variances'),
+         ('variances', 'estimates carrying variances, explicit windows'),
+         ('variances', 'estimates carrying variances, automatic windows (refusal allowed)'),
+         ('variances', 'window width carrying a variance (refusal allowed)'),
+         ('variances', 'point coordinate carrying variances (refusal allowed)'),
+         ('masks', 'a mask that masks nothing'), ('masks', 'masked points outside every window'),
+         ('masks', 'two masks, masked points inside a window'),
+         *(('dim names', f'dimension named {d!r}') for d in PROTOCOL_DIMS),
+         ('calling convention', 'fit_peaks with every argument by keyword'),
+         ('calling convention', 'remove_peaks positional / keyword / mixed'),
+         ('calling convention', 'FitResult methods positional / keyword'),
+         ('names', 'numpy.str_ names'), ('names', '(str, Enum) member names'), ('names', 'StrEnum member names'),
+         ('names', 'str subclass names'), ('names', 'list of numpy.str_ names'),
+         ('names', 'tuple of (str, Enum) members'), ('names', 'numpy array of names'),
+         ('names', 'polynomial degree given as numpy.int64 / IntEnum member'),
+         ('second use', 'the same model / FitParameters / FitRequirements objects in a second call'),
+         ('second use', 'call repeated after a refused call (unsorted estimates, automatic windows)'),
+         ('second use', 'the same results removed twice and removal of the removal'),
+         ('second use', 'windows and fitted centres of the results fed back as explicit input'),
+         ('stand-ins', 'subclasses of the model classes'),
+         ('stand-ins', 'subclasses of FitParameters / FitRequirements'),
+         ('stand-ins', 'attribute-only stand-ins for FitParameters / FitRequirements'),
+         ('stand-ins', 'property-based stand-ins for FitParameters / FitRequirements'),
+         ('stand-ins', 'subclass of FitResult handed to remove_peaks'),
+         ('display and copies', 'repr / str / copy / deepcopy / pickle / == of models and parameter objects between two fits'),
+         ('display and copies', 'repr / str / report / == / hash / asdict of results before removal'),
+         ('display and copies', 'copy / deepcopy / replace of results handed to remove_peaks')]
+    return v
+
+
+PROTOCOL_CLASSES = _protocol_classes()
+FORCED_PROTOCOL_CLASSES = [f'{axis}: {name}' for axis, name in PROTOCOL_CLASSES]
+
+
+class Protocol:
+    """One cheap reference spectrum per shard; each variant hands the SAME input to the package in
+    another form the documentation allows and must give the same results bit for bit (the
+    monitors judge every call as usual on top)."""
+
+    def __init__(self, ctx, mon, P, M, FP, rng, tier, heavy_n=None):
+        self.ctx, self.mon, self.P, self.M, self.FP, self.rng, self.tier = ctx, mon, P, M, FP, rng, tier
+        h = 10 ** rng.uniform(-2, 1)
+        n = int(rng.integers(150, 260)) if heavy_n is None else heavy_n
+        self.h, self.n = h, n
+        self.x = h * rng.uniform(-50, 300) + h * np.arange(n, dtype=np.float64)
+        self.m = 2 if heavy_n is None else 3
+        q = (0.3, 0.68) if heavy_n is None else (0.2, 0.5, 0.8)
+        self.locs = [self.x[0] + h * (n * qq + rng.uniform(-3, 3)) for qq in q]
+        self.fws = [rng.uniform(4, 7) * h for _ in q]
+        self.xu, self.yu = UNITS[1 + rng.integers(0, 3)]
+        self.dim = 'tof'
+        self.data = simple_spectrum(rng, self.x, [('gaussian', c, fw) for c, fw in
+                                                 zip(self.locs, self.fws, strict=True)], self.dim, self.xu, self.yu)
+        self.est = np.array([c + rng.uniform(-0.2, 0.2) * fw for c, fw in zip(self.locs, self.fws, strict=True)])
+        self.width = float(int(rng.integers(30, 44)) * h)
+        self.ref = None
+
+    # -- plumbing ---------------------------------------------------------------------------
+    def tag(self, window_class, axis, name, dim=None, **extra):
+        return _tag(window_class, self.m, dim or self.dim, self.xu, self.yu, ['gaussian'], [1],
+                    protocol_axis=axis, protocol_form=name, **extra)
+
+    def kw(self, dim=None, **over):
+        dim = dim or self.dim
+        kw = {'peak_estimates': sc.array(dims=[dim], values=self.est, unit=self.xu),
+              'windows': sc.scalar(self.width, unit=self.xu), 'background': 'linear', 'peak': 'gaussian'}
+        kw.update(over)
+        return kw
+
+    def explicit(self, dim=None, variances=False):
+        w = np.array([r.window.values for r in self.ref])
+        dim = dim or self.dim
+        if variances:
+            return sc.array(dims=[dim, 'range'], values=w, variances=np.full(w.shape, (0.3 * self.h) ** 2),
+                            unit=self.xu)
+        return sc.array(dims=[dim, 'range'], values=w, unit=self.xu)
+
+    def fit(self, data, kw, tag, sig, by_keyword=False):
+        mon, ctx = self.mon, self.ctx
+        mon.tag.clear()
+        mon.tag.update(tag)
+        if kw['windows'].ndim:
+            tag.setdefault('windows_layout', 'dim_range')
+            mon.tag['windows_layout'] = 'dim_range'
+        _forced(ctx, mon.tag, kw, data, mon.sources)
+        res = None
+        try:
+            if by_keyword:
+                res = self.P.fit_peaks(**dict(reversed(list(kw.items()))), data=data)
+            else:
+                res = self.P.fit_peaks(data, **kw)
+        except Exception:  # noqa: BLE001  (judged by the monitor through PY_UNWIND)
+            pass
+        ctx.case(sig)
+        return res
+
+    def plain(self, data=None):
+        data = self.data if data is None else data
+        return sc.DataArray(sc.values(data.data), coords=dict(data.coords), masks=dict(data.masks))
+
+    def reference(self):
+        tag = self.tag('moderate', 'reference', 'reference')
+        self.ref = self.fit(self.data, self.kw(), tag, ('fit_peaks', 'protocol', 'reference', self.n > 10 ** 5))
+        if self.ref is None or len(self.ref) != self.m:
+            self.ref = None
+            return False
+        self.key = result_key(self.ref)
+        self.ctx.count('protocol_reference:' + '+'.join(r.assessment.name for r in self.ref))
+        self.mon.tag.clear()
+        self.mon.tag.update(tag)
+        try:
+            self.removed = self.P.remove_peaks(self.plain(), list(self.ref))
+        except Exception:  # noqa: BLE001  (judged by the monitor)
+            self.removed = None
+        return True
+
+    def same(self, axis, name, res, allow_refusal=False):
+        """``res`` (None: the call raised; the monitor has judged or counted that) against the reference."""
+        ctx = self.ctx
+        if res is None:
+            if allow_refusal:
+                ctx.event('other_form.refused')
+            return
+        ctx.event('same_result_in_other_form')
+        ctx.event('other_form.' + axis)
+        if len(res) != len(self.key) or result_key(res) != self.key:
+            got = [r.assessment.name for r in res] if all(hasattr(r, 'assessment') for r in res) else repr(res)[:200]
+            ctx.violation('result_depends_on_form_of_input',
+                          f'{axis}: {name}: results differ from those of the same input in its plain form '
+                          f'(assessments {got} vs {[k[0] for k in self.key]})',
+                          {'axis': axis, 'form': name, 'n_points': self.n, 'estimates': self.est.tolist(),
+                           'width': self.width, 'reference_windows': [r.window.values.tolist() for r in self.ref]},
+                          axis=axis)
+
+    def same_removal(self, axis, name, out):
+        ctx = self.ctx
+        if out is None or self.removed is None:
+            return
+        ctx.event('same_removal_in_other_form')
+        ctx.event('other_form.' + axis)
+        if not (out.dims == self.removed.dims and _bits_equal(out.values, self.removed.values)
+                and out.unit == self.removed.unit):
+            ctx.violation('removal_depends_on_form_of_input',
+                          f'{axis}: {name}: remove_peaks gives another result than for the same input in '
+                          'its plain form', {'axis': axis, 'form': name, 'n_points': self.n}, axis=axis)
+
+    def remove(self, *args, **kwargs):
+        try:
+            return self.P.remove_peaks(*args, **kwargs)
+        except Exception:  # noqa: BLE001  (judged by the monitor)
+            return None
+
+    # -- the variants -----------------------------------------------------------------------
+    def run(self, k):
+        axis, name = PROTOCOL_CLASSES[k]
+        self.ctx.hit(f'{axis}: {name}')
+        sig = ('fit_peaks', 'protocol', axis, name)
+        getattr(self, '_' + axis.replace(' ', '_').replace('-', '_'))(axis, name, sig)
+
+    def _variances(self, axis, name, sig):
+        ev = sc.array(dims=[self.dim], values=self.est, variances=np.full(self.m, (0.1 * self.h) ** 2), unit=self.xu)
+        refusal = {'refusal_ok': ('VariancesError',), 'refusal_class': name}
+        if name == 'explicit windows carrying variances':
+            res = self.fit(self.data, self.kw(windows=self.explicit(variances=True)), self.tag('explicit', axis, name), sig)
+            self.same(axis, name, res)
+        elif name == 'estimates carrying variances, explicit windows':
+            res = self.fit(self.data, self.kw(windows=self.explicit(), peak_estimates=ev),
+                           self.tag('explicit', axis, name), sig)
+            self.same(axis, name, res)
+        elif name.startswith('estimates carrying variances, automatic'):
+            res = self.fit(self.data, self.kw(peak_estimates=ev), self.tag('moderate', axis, name, **refusal), sig)
+            self.same(axis, name, res, allow_refusal=True)
+        elif name.startswith('window width'):
+            w = sc.scalar(self.width, variance=(0.01 * self.width) ** 2, unit=self.xu)
+            res = self.fit(self.data, self.kw(windows=w), self.tag('moderate', axis, name, **refusal), sig)
+            self.same(axis, name, res, allow_refusal=True)
+        else:
+            d = self.data.copy()
+            d.coords[self.dim] = sc.array(dims=[self.dim], values=self.x, variances=np.full(self.n, (0.01 * self.h) ** 2),
+                                          unit=self.xu)
+            res = self.fit(d, self.kw(), self.tag('moderate', axis, name, **refusal), sig)
+            self.same(axis, name, res, allow_refusal=True)
+
+    def _masks(self, axis, name, sig):
+        d = self.data.copy()
+        covered = np.zeros(self.n, dtype=bool)
+        for r in self.ref:
+            covered |= pm.in_window(self.x, *r.window.values)
+        if name == 'a mask that masks nothing':
+            d.masks['nothing'] = sc.zeros(dims=[self.dim], shape=[self.n], dtype=bool)
+            self.same(axis, name, self.fit(d, self.kw(), self.tag('moderate', axis, name), sig))
+        elif name == 'masked points outside every window':
+            mk = ~covered & (self.rng.random(self.n) < 0.5)
+            mk[np.flatnonzero(~covered)[:1]] = True
+            d.masks['bad'] = sc.array(dims=[self.dim], values=mk)
+            self.same(axis, name, self.fit(d, self.kw(), self.tag('moderate', axis, name), sig))
+            out = self.remove(self.plain(d), list(self.ref))
+            self.same_removal(axis, name, out)
+        else:
+            # judged by the monitors only: the statistics are those of all points of the window
+            idx = np.flatnonzero(covered)
+            mk = np.zeros(self.n, dtype=bool)
+            mk[self.rng.choice(idx, size=max(2, len(idx) // 12), replace=False)] = True
+            d.masks['bad'] = sc.array(dims=[self.dim], values=mk)
+            d.masks['nothing'] = sc.zeros(dims=[self.dim], shape=[self.n], dtype=bool)
+            res = self.fit(d, self.kw(), self.tag('moderate', axis, name, masked_inside=True), sig)
+            if res is not None:
+                self.ctx.event('masked_points_inside_window')
+                self.remove(self.plain(d), list(res))
+
+    def _dim_names(self, axis, name, sig):
+        dim = PROTOCOL_DIMS[[f'dimension named {d!r}' for d in PROTOCOL_DIMS].index(name)]
+        d = self.data.rename_dims({self.dim: dim})
+        d = sc.DataArray(d.data, coords={dim: d.coords[self.dim]})
+        if PROTOCOL_DIMS.index(dim) % 2:
+            kw = self.kw(dim=dim, windows=self.explicit(dim=dim))
+            res = self.fit(d, kw, self.tag('explicit', axis, name, dim=dim), sig)
+        else:
+            res = self.fit(d, self.kw(dim=dim), self.tag('moderate', axis, name, dim=dim), sig)
+        self.same(axis, name, res)
+        if res is not None:
+            out = self.remove(self.plain(d), list(res))
+            self.same_removal(axis, name, out.rename_dims({dim: self.dim}) if out is not None else None)
+
+    def _calling_convention(self, axis, name, sig):
+        if name.startswith('fit_peaks'):
+            kw = self.kw(fit_parameters=self.P.FitParameters(), fit_requirements=self.P.FitRequirements())
+            self.same(axis, name, self.fit(self.data, kw, self.tag('moderate', axis, name), sig, by_keyword=True))
+        elif name.startswith('remove_peaks'):
+            self.mon.tag.clear()
+            self.mon.tag.update(self.tag('moderate', axis, name))
+            pl, fits = self.plain(), list(self.ref)
+            for out in (self.remove(pl, fits), self.remove(data=pl, fit_results=fits),
+                        self.remove(pl, fit_results=tuple(fits)), self.remove(fit_results=fits, data=pl)):
+                self.same_removal(axis, name, out)
+                self.ctx.case(('remove_peaks', 'protocol', axis))
+        else:
+            xs = self.data.coords[self.dim]
+            for r, o in zip(self.ref, self.ref[1:] + self.ref[:1], strict=True):
+                if not math.isfinite(float(r.aic.value)) or any(math.isnan(float(v.value)) for v in r.popt.values()):
+                    continue
+                self.ctx.event('other_form.' + axis)
+                a, b = r.eval_peak(xs), r.eval_peak(x=xs)
+                c, d = r.eval_model(xs), r.eval_model(x=xs)
+                if not (_bits_equal(a.values, b.values) and _bits_equal(c.values, d.values)
+                        and r.better_than(o) == r.better_than(other=o)):
+                    self.ctx.violation('result_depends_on_form_of_input', f'{axis}: {name}: FitResult.eval_peak / '
+                                       'eval_model / better_than differ between positional and keyword call',
+                                       {'axis': axis, 'form': name}, axis=axis)
+                # and the peak the result evaluates is the documented formula of its parameters
+                _, pk = _split_popt(_popt_values(r.popt))
+                kind = _kind_of_peak_spec(r.peak)
+                exp = pm.peak(kind, xs.values, pk)
+                err = float(np.max(np.abs(a.values.astype(pm.LD) - exp)))
+                self.ctx.dev('eval_peak.error_over_height', err / max(pm.peak_height(kind, pk), 1e-300))
+                if err > 1e-12 * pm.peak_height(kind, pk) and pk['scale'] > 1e-15:
+                    self.ctx.violation('eval_peak', f'eval_peak differs from the documented {kind} formula of the '
+                                       f'reported parameters by {err!r}', {'axis': axis, 'popt_peak': pk})
+
+    def _names(self, axis, name, sig):
+        import enum
+
+        class PeakName(str, enum.Enum):
+            gaussian = 'gaussian'
+            lorentzian = 'lorentzian'
+
+        class BkgName(str, enum.Enum):
+            quadratic = 'quadratic'
+            linear = 'linear'
+
+        class AnyName(enum.StrEnum):
+            linear = 'linear'
+            gaussian = 'gaussian'
+
+        class Label(str):
+            __slots__ = ()
+
+        if name.startswith('polynomial degree'):
+            class Degree(enum.IntEnum):
+                linear = 1
+
+            for dg in (np.int64(1), Degree.linear):
+                kw = self.kw(background=self.M.PolynomialModel(degree=dg, prefix='bkg_'))
+                self.same(axis, name, self.fit(self.data, kw, self.tag('moderate', axis, name), sig))
+            return
+        pk, bg = {
+            'numpy.str_ names': (np.str_('gaussian'), np.str_('linear')),
+            '(str, Enum) member names': (PeakName.gaussian, BkgName.linear),
+            'StrEnum member names': (AnyName.gaussian, AnyName.linear),
+            'str subclass names': (Label('gaussian'), Label('linear')),
+            'list of numpy.str_ names': ([np.str_('gaussian')], [np.str_('linear')]),
+            'tuple of (str, Enum) members': ((PeakName.gaussian,), (BkgName.linear,)),
+            'numpy array of names': (np.array(['gaussian']), np.array(['linear'])),
+        }[name]
+        tag = self.tag('moderate', axis, name)
+        if not isinstance(pk, str):
+            tag['peak_spec_form'] = tag['background_spec_form'] = type(pk).__name__
+        self.same(axis, name, self.fit(self.data, self.kw(peak=pk, background=bg), tag, sig))
+
+    def _second_use(self, axis, name, sig):
+        P, M = self.P, self.M
+        if name.startswith('the same model'):
+            g, b = M.GaussianModel(prefix='peak_'), M.PolynomialModel(degree=1, prefix='bkg_')
+            par, req = P.FitParameters(), P.FitRequirements()
+            for _ in range(2):
+                kw = self.kw(peak=g, background=b, fit_parameters=par, fit_requirements=req)
+                self.same(axis, name, self.fit(self.data, kw, self.tag('moderate', axis, name), sig))
+        elif name.startswith('call repeated'):
+            # sorted estimates are the documented precondition of automatic windows
+            bad = self.kw(peak_estimates=sc.array(dims=[self.dim], values=self.est[::-1].copy(), unit=self.xu))
+            self.fit(self.data, bad, self.tag('moderate', axis, name, estimate_class='unsorted',
+                                              refusal_ok=('ValueError',), refusal_class='unsorted estimates, automatic windows'),
+                     (*sig, 'refused'))
+            self.same(axis, name, self.fit(self.data, self.kw(), self.tag('moderate', axis, name), sig))
+        elif name.startswith('the same results'):
+            self.mon.tag.clear()
+            self.mon.tag.update(self.tag('moderate', axis, name))
+            pl, fits = self.plain(), list(self.ref)
+            one = self.remove(pl, fits)
+            two = self.remove(pl, fits)
+            self.same_removal(axis, name, one)
+            self.same_removal(axis, name, two)
+            if one is not None:
+                self.remove(one, fits)  # the monitor judges: the fitted peaks are subtracted once more
+                self.ctx.case(('remove_peaks', 'protocol', axis))
+        else:
+            ok = [r for r in self.ref if not math.isnan(float(r.popt['peak_loc'].value))]
+            if len(ok) == self.m:
+                est = sc.array(dims=[self.dim], values=[float(r.popt['peak_loc'].value) for r in ok], unit=self.xu)
+                kw = self.kw(peak_estimates=est, windows=self.explicit())
+                self.same(axis, name, self.fit(self.data, kw, self.tag('explicit', axis, name), sig))
+            else:
+                self.ctx.count('protocol_not_applicable:no fitted centre to feed back')
+
+    def _stand_ins(self, axis, name, sig):
+        import types
+
+        P, M, FP = self.P, self.M, self.FP
+        if name == 'subclasses of the model classes':
+            class Bell(M.GaussianModel):
+                pass
+
+            class Baseline(M.PolynomialModel):
+                pass
+
+            kw = self.kw(peak=Bell(prefix='peak_'), background=Baseline(degree=1, prefix='bkg_'))
+            res = self.fit(self.data, kw, self.tag('moderate', axis, name), sig)
+            self.same(axis, name, res)
+            if res is not None:
+                self.same_removal(axis, name, self.remove(self.plain(), list(res)))
+        elif name.startswith('subclasses of FitParameters'):
+            class Par(P.FitParameters):
+                pass
+
+            class Req(P.FitRequirements):
+                pass
+
+            kw = self.kw(fit_parameters=Par(), fit_requirements=Req())
+            self.same(axis, name, self.fit(self.data, kw, self.tag('moderate', axis, name), sig))
+        elif name.startswith('attribute-only'):
+            kw = self.kw(fit_parameters=types.SimpleNamespace(guess_background_fraction=0.5,
+                                                              neighbor_separation_factor=1 / 3),
+                         fit_requirements=types.SimpleNamespace(min_p_value=0.01, max_peak_width_factor=1.0,
+                                                                min_peak_width_factor=1.0))
+            self.same(axis, name, self.fit(self.data, kw, self.tag('moderate', axis, name), sig))
+        elif name.startswith('property-based'):
+            class Par:
+                guess_background_fraction = property(lambda self: 0.5)
+                neighbor_separation_factor = property(lambda self: 1 / 3)
+
+            class Req:
+                min_p_value = property(lambda self: 0.01)
+                max_peak_width_factor = property(lambda self: 1.0)
+                min_peak_width_factor = property(lambda self: 1.0)
+
+            kw = self.kw(fit_parameters=Par(), fit_requirements=Req())
+            self.same(axis, name, self.fit(self.data, kw, self.tag('moderate', axis, name), sig))
+        else:
+            class Outcome(FP.FitResult):
+                __slots__ = ()
+
+            self.mon.tag.clear()
+            self.mon.tag.update(self.tag('moderate', axis, name))
+            fits = [Outcome(**{f.name: getattr(r, f.name) for f in dataclasses.fields(r)}) for r in self.ref]
+            self.same_removal(axis, name, self.remove(self.plain(), fits))
+            self.ctx.case(('remove_peaks', 'protocol', axis))
+
+    def _display_and_copies(self, axis, name, sig):
+        import copy
+        import pickle
+
+        P, M = self.P, self.M
+        if name.startswith('repr / str / copy'):
+            g, b = M.GaussianModel(prefix='peak_'), M.PolynomialModel(degree=1, prefix='bkg_')
+            par, req = P.FitParameters(), P.FitRequirements()
+            kw = self.kw(peak=g, background=b, fit_parameters=par, fit_requirements=req)
+            self.same(axis, name, self.fit(self.data, kw, self.tag('moderate', axis, name), sig))
+            for o in (g, b, par, req):
+                for op in (repr, str, copy.copy, copy.deepcopy, lambda v: pickle.loads(pickle.dumps(v)),
+                           lambda v: v == copy.copy(v), lambda v: v != v):
+                    try:
+                        op(o)
+                    except Exception:  # noqa: BLE001  (not part of C17; only the next fit is judged)
+                        self.ctx.count('display_operation_raised:' + type(o).__name__)
+            self.same(axis, name, self.fit(self.data, kw, self.tag('moderate', axis, name), sig))
+            kw2 = self.kw(peak=pickle.loads(pickle.dumps(g)), background=copy.deepcopy(b),
+                          fit_parameters=copy.copy(par), fit_requirements=dataclasses.replace(req))
+            self.same(axis, name, self.fit(self.data, kw2, self.tag('moderate', axis, name), (*sig, 'copies')))
+        elif name.startswith('repr / str / report'):
+            self.mon.tag.clear()
+            self.mon.tag.update(self.tag('moderate', axis, name))
+            fits = list(self.ref)
+            for r in fits:
+                for op in (repr, str, lambda v: v.report(), lambda v: v == v, hash, dataclasses.asdict,
+                           lambda v: v.success, lambda v: v.eval_model(self.data.coords[self.dim])):
+                    try:
+                        op(r)
+                    except Exception:  # noqa: BLE001
+                        self.ctx.count('display_operation_raised:FitResult')
+            self.same_removal(axis, name, self.remove(self.plain(), fits))
+            self.ctx.case(('remove_peaks', 'protocol', axis))
+            if result_key(fits) != self.key:
+                self.ctx.violation('result_depends_on_form_of_input', f'{axis}: {name}: looking at the results '
+                                   'changed them', {'axis': axis, 'form': name}, axis=axis)
+        else:
+            self.mon.tag.clear()
+            self.mon.tag.update(self.tag('moderate', axis, name))
+            for how, f in (('copy', copy.copy), ('deepcopy', copy.deepcopy), ('replace', dataclasses.replace)):
+                try:
+                    fits = [f(r) for r in self.ref]
+                except Exception:  # noqa: BLE001
+                    self.ctx.count('display_operation_raised:FitResult.' + how)
+                    continue
+                self.same_removal(axis, name, self.remove(self.plain(), fits))
+                self.ctx.case(('remove_peaks', 'protocol', axis, how))
+
+
 def plan(tier, seed):
     if tier == 'quick':
         # 14 planned shards + the 2 environment-variant shards of the runner = one wave on 16 cores
-        return [{'spectra': 10, 'resolution': 3} for _ in range(14)]
-    return [{'spectra': 313, 'resolution': 48} for _ in range(16)]
+        # the shard that carries the heavy spectrum gets a smaller share of the ordinary cases
+        return [{'spectra': 3 if i == 13 else 7, 'resolution': 1 if i == 13 else 2, 'separation': 2, 'fields': 2,
+                 'protocol_rounds': 1, 'of': 14, 'heavy': i == 13} for i in range(14)]
+    return [{'spectra': 313, 'resolution': 48, 'separation': 36, 'fields': 24, 'protocol_rounds': 4,
+             'of': 16, 'heavy': i == 15} for i in range(16)]
 
 
 def requirements(tier):
     k = 1 if tier == 'quick' else 20
+    k2 = 1 if tier == 'quick' else 4  # field / protocol classes: a fixed list per round
     return {
         'events': {'fit_peaks': 100 * k, 'result_in_order': 150 * k, 'statistics.result': 100 * k,
                    'statistics.perform_fit': 200 * k, 'success_requirements': 40 * k,
@@ -1554,7 +2321,20 @@ def requirements(tier):
                    'min_width.verdict_depends_on_local_spacing': 20 * k,
                    'min_width.verdict_depends_on_local_spacing.success': 8 * k,
                    'min_width.verdict_depends_on_local_spacing.peak_too_narrow': 8 * k,
-                   'failure_reason': 30 * k},
+                   'failure_reason': 30 * k,
+                   # automatic windows judged on the windows the results carry, too
+                   'auto_window.results': 150 * k, 'auto_window_separation.results': 60 * k,
+                   # separation cases: every factor class decided, and decided where the requested
+                   # width reaches the limit (the window had to be adjusted to keep the distance)
+                   'separation_case': 60 * k,
+                   'auto_window_separation.width_reaches_limit': 100 * k,
+                   **{f'auto_window_separation.factor_{fc}': 8 * k for fc in SEP_FACTORS},
+                   **{f'auto_window_separation.factor_{fc}.results': 8 * k for fc in SEP_FACTORS},
+                   'field_case': 24 * k2,
+                   # the same input in another form gave a result that was compared
+                   'same_result_in_other_form': 30 * k2, 'same_removal_in_other_form': 15 * k2,
+                   **{'other_form.' + ax: 1 for ax in sorted({a for a, _ in PROTOCOL_CLASSES})},
+                   'masked_points_inside_window': 1},
         'forced': ['window with fewer points than parameters', 'estimate outside the data',
                    'estimate on the lower edge', 'estimate on the upper edge',
                    'window below the grid spacing', 'window spanning the full range',
@@ -1577,7 +2357,11 @@ def requirements(tier):
                    'estimates given as a slice of a longer variable',
                    *(f'under-resolved peak in the {pl} part of a {b} window'
                      for b in RES_BLOCKS for pl in PLACEMENTS),
-                   *('spectrum on a ' + g + ' grid' for g in NON_UNIFORM_GRIDS)],
+                   *('spectrum on a ' + g + ' grid' for g in NON_UNIFORM_GRIDS),
+                   *FORCED_SEPARATION_CLASSES,
+                   *(f'separation case with {m} estimates' for m in range(2, 7)),
+                   *FORCED_FIELD_CLASSES, *FORCED_PROTOCOL_CLASSES,
+                   'spectrum of more than 2**20 points'],
         'counters': {'success_after_failed_attempts': 1, 'all_pairs_failed': 1,
                      'assessment:success': 30 * k,
                      'peak_free_window:background_is_better': 5 * k,
@@ -1691,6 +2475,80 @@ def run(shard, ctx):
                 except Exception:  # noqa: BLE001
                     pass
 
+        seed, index, tier = shard['seed'], shard['index'], shard['tier']
+
+        def drive(data, kw, tag, sig, remove=False, sample=False):
+            """One fit_peaks call of the classes below (and, on request, the removal of its results)."""
+            mon.tag.clear()
+            mon.tag.update(tag)
+            _forced(ctx, tag, kw, data, mon.sources)
+            if tag.get('forced_class'):
+                ctx.hit(tag['forced_class'])
+            before = ctx.n_violations
+            res = None
+            try:
+                res = P.fit_peaks(data, **kw)
+            except Exception:  # noqa: BLE001  (judged by the monitor through PY_UNWIND)
+                pass
+            ctx.case(sig)
+            if sample or ctx.n_violations > before:
+                ctx.sample({'signature': sig, **tag, 'n_points': len(data),
+                            'estimates': kw['peak_estimates'].values.tolist(),
+                            'windows': describe(kw['windows']),
+                            'assessments': [r.assessment.name for r in res] if res else None})
+            if res is not None and remove:
+                plain = sc.DataArray(sc.values(data.data), coords=dict(data.coords))
+                try:
+                    P.remove_peaks(plain, tuple(res))
+                except Exception:  # noqa: BLE001  (judged by the monitor)
+                    pass
+                ctx.case(('remove_peaks', 'as_fitted', tag['window_class'], len(res)))
+            return res
+
+        # neighbor_separation_factor over [0, 1] x width bands against uneven gaps x 2..6 estimates
+        nsep = shard.get('separation', 0)
+        for j in range(nsep):
+            si = index * nsep + j
+            rng = np.random.Generator(np.random.PCG64([seed, index, 100000 + j]))
+            mon.sources.clear()
+            for bi, (data, kw, tag, sig) in enumerate(build_separation_case(rng, si, tier, M, P, mon.sources)):
+                drive(data, kw, tag, sig, remove=bi == 1, sample=(j == 0 and bi == 0))
+                ctx.event('separation_case')
+                ctx.hit(f'separation case with {len(kw["peak_estimates"])} estimates')
+        # every other field of FitRequirements / FitParameters over its range
+        nfld = shard.get('fields', 0)
+        for j in range(nfld):
+            fi = index * nfld + j
+            rng = np.random.Generator(np.random.PCG64([seed, index, 200000 + j]))
+            mon.sources.clear()
+            data, kw, tag, sig = build_field_case(rng, fi, tier, M, P, mon.sources)
+            drive(data, kw, tag, sig, remove=True, sample=j == 0)
+            ctx.event('field_case')
+        # the same input in every other documented form
+        nsh = max(int(shard.get('of', 1)), 1)
+        for rnd in range(shard.get('protocol_rounds', 0)):
+            rng = np.random.Generator(np.random.PCG64([seed, index, 300000 + rnd]))
+            mon.sources.clear()
+            pr = Protocol(ctx, mon, P, M, FP, rng, tier)
+            if not pr.reference():
+                continue
+            for k in range(len(PROTOCOL_CLASSES)):
+                if (k + rnd) % nsh == index % nsh:
+                    pr.run(k)
+        # sizes: one spectrum beyond 2**20 points (fits on window slices, removal on the whole)
+        if shard.get('heavy'):
+            n_heavy = HEAVY_SIZES[seed % len(HEAVY_SIZES)]
+            rng = np.random.Generator(np.random.PCG64([seed, index, 400000]))
+            mon.sources.clear()
+            pr = Protocol(ctx, mon, P, M, FP, rng, tier, heavy_n=n_heavy)
+            if pr.reference():
+                ctx.hit('spectrum of more than 2**20 points')
+                ctx.count(f'heavy_spectrum:{n_heavy}_points')
+                for name in ('masked points outside every window',):
+                    pr._masks('masks', name, ('fit_peaks', 'protocol', 'heavy', name))
+                pr._second_use('second use', 'the same results removed twice and removal of the removal',
+                               ('remove_peaks', 'protocol', 'heavy'))
+
 
 def _forced(ctx, tag, kw, data, sources):
     x = data.coords[data.dim].values
@@ -1773,3 +2631,9 @@ FINDING_PREDICATES = {
         v['kind'] == 'success_violates_requirement' and _keys(v).get('requirement') == 'min_p_value'
         and _keys(v).get('p_is_nan') is True and _keys(v).get('zero_dof') is True),
 }
+
+# strict-caller variant shard of the runner: not run for this property.  scipy's optimiser legitimately emits
+# OptimizeWarning ("Covariance of the parameters could not be estimated") and floating-point events for hopeless
+# windows and the package lets them through; with warnings turned into errors fit_peaks then raises on the unchanged
+# tree.  The property does not quantify over the caller's warning filters; recorded as an observation in DESIGN.md.
+STRICT_CALLER = False
